@@ -49,6 +49,10 @@ func verifPatterns() []*types.PatternNode {
 		vSeq(vPerm(A, B), C),                 // PERMUTE(A, B) C
 		vSeq(A, vPerm(B, C)),                 // A PERMUTE(B, C)
 		vPerm(A, B, C),                       // PERMUTE(A, B, C)
+		vRep(A, 1, 3),                        // A{1,3}
+		vSeq(vRep(A, 1, 3), B),               // A{1,3} B
+		vSeq(A, vRep(B, 0, 2), C),            // A B{0,2} C
+		vSeq(vRep(A, 2, 4), B),               // A{2,4} B
 	}
 }
 
